@@ -295,6 +295,11 @@ class Closed:
                 t = self.tag(base, st)
                 self.require('i', e, t, 'acceptance decision `{}`'.format(u(e)), ok_tags=(C,))
                 n += 1
+            # (i) symmetric spelling:  F.isdisjoint(<state set>)
+            if isinstance(e, ast.Call) and isinstance(e.func, ast.Attribute) and e.func.attr == 'isdisjoint' and e.args and self._is_F(e.func.value) and not self._is_F(e.args[0]):
+                st, nid = self.state_at(e)
+                self.require('i', e, self._tag_in_context(e.args[0], st, e), 'acceptance decision `{}`'.format(u(e)))
+                n += 1
             # (i') acceptance decision delegated to a local helper:  def is_accepting(q): return not q.isdisjoint(N.F)
             if isinstance(e, ast.Call) and isinstance(e.func, ast.Name) and e.func.id in self.f.nested and len(e.args) == 1:
                 g = self.f.nested[e.func.id]
